@@ -447,7 +447,7 @@ func ruleEnumLabelUniq(c *Ctx, r *Report) {
 //   - the key message of a list is a sibling of the messages of the list's package, so its name
 //     is made unique against the names of the directories of that package.
 func ruleProtoScopeNames(c *Ctx, r *Report) {
-	r.Rule("R-PROTO-SCOPE", "names protogen derives with a fixed transformation are kept unique in the protobuf scope they land in: the value prefix of each enum embedded in a message is a MakeNameUnique result over the message's enums, set before the (single) render and read by the message template; the name of a list's key message is a MakeNameUnique result over the names of the IR directories of its package", 4)
+	r.Rule("R-PROTO-SCOPE", "names protogen derives with a fixed transformation are kept unique in the protobuf scope they land in: the value prefix of each enum embedded in a message is a MakeNameUnique result over the message's enums, set before the (single) render and read by the message template; the name of a list's key message is a MakeNameUnique result over the names of the IR directories of its package; the fields of a oneof are renamed by MakeNameUnique over the message's field names before they are attached", 6)
 	// (1) every store to protoMsgEnum.ValuePrefix is a uniquifier result with memory across the loop.
 	var setter *FuncInfo
 	n := 0
@@ -561,6 +561,77 @@ func ruleProtoScopeNames(c *Ctx, r *Report) {
 			r.Check(good, "protogen.protoMessageTemplate:enum-value-prefix", c.Pos(mt.Pos), "expanded template prefixes each value with its enum's ValuePrefix",
 				"expanded over a message with enums EnUm/ENum (prefixes PFXA/PFXB) the message template does not emit PFXA_UNSET and PFXB_UNSET: the prefix of embedded enum values is not the uniquified ValuePrefix, so enums whose names differ only in case declare the same value names in one scope")
 		}
+	}
+	// (5) oneof members: wherever generated oneof fields are attached to a field of a message
+	// (append(<f>.OneOfFields, <members>...)), the members were renamed, earlier in the same
+	// statement list, by MakeNameUnique over the set of the message's field names.
+	for _, f := range c.AllFuncs("protogen") {
+		info := f.Info()
+		pm := c.parentMap(f.File)
+		k := 0
+		ast.Inspect(f.Decl.Body, func(x ast.Node) bool {
+			call, ok := x.(*ast.CallExpr)
+			if !ok || len(call.Args) != 2 || !call.Ellipsis.IsValid() {
+				return true
+			}
+			if id, ok := call.Fun.(*ast.Ident); !ok || id.Name != "append" {
+				return true
+			}
+			se, ok := ast.Unparen(call.Args[0]).(*ast.SelectorExpr)
+			if !ok || se.Sel.Name != "OneOfFields" {
+				return true
+			}
+			members := call.Args[1]
+			k++
+			key := fmt.Sprintf("%s:oneof-members#%d", f.Name, k)
+			var stmt ast.Node = call
+			for pm[stmt] != nil {
+				if _, isBlock := pm[stmt].(*ast.BlockStmt); isBlock {
+					break
+				}
+				if _, isCase := pm[stmt].(*ast.CaseClause); isCase {
+					break
+				}
+				stmt = pm[stmt]
+			}
+			var list []ast.Stmt
+			switch p := pm[stmt].(type) {
+			case *ast.BlockStmt:
+				list = p.List
+			case *ast.CaseClause:
+				list = p.Body
+			}
+			renamed := false
+			for _, st := range list {
+				if ast.Node(st) == stmt {
+					break
+				}
+				rs, ok := st.(*ast.RangeStmt)
+				if !ok || rs.Value == nil || !sameExpr(info, rs.X, members) {
+					continue
+				}
+				el := ObjOf(info, rs.Value)
+				ast.Inspect(rs.Body, func(y ast.Node) bool {
+					as, ok := y.(*ast.AssignStmt)
+					if !ok || len(as.Lhs) != 1 || len(as.Rhs) != 1 {
+						return true
+					}
+					ls, ok := ast.Unparen(as.Lhs[0]).(*ast.SelectorExpr)
+					if !ok || ls.Sel.Name != "Name" || ObjOf(info, ls.X) != el {
+						return true
+					}
+					if cl, ok := ast.Unparen(as.Rhs[0]).(*ast.CallExpr); ok && FullName(Callee(info, cl)) == P("genutil")+".MakeNameUnique" && len(cl.Args) == 2 {
+						if strings.Contains(types.ExprString(cl.Args[1]), "definedFieldNames") {
+							renamed = true
+						}
+					}
+					return true
+				})
+			}
+			r.Check(renamed, key, c.Pos(call.Pos()), "oneof members renamed by MakeNameUnique over the message's field names before being attached",
+				f.Name+" attaches the fields of a oneof to a message without making their names (<leaf>_<type>) unique among the message's fields: a union leaf foo-bar with a string member next to a leaf foo-bar-string yields two fields named foo_bar_string")
+			return true
+		})
 	}
 	// (4) key message name.
 	if f := c.MustFunc(r, "protogen", "genListKeyProto"); f != nil {
